@@ -88,8 +88,11 @@ SplitFrom(s, d, i, start) ==
     ELSE SplitFrom(s, d, i + 1, start)
 SplitBy(s, d) == IF d = <<>> THEN (IF s = <<>> THEN <<>> ELSE <<s>>) ELSE SplitFrom(s, d, 1, 1)
 
+\* concatenation of a sequence of sequences (divide and conquer: recursion depth log n, TLC's stack is shallow)
 RECURSIVE FlattenSeqs(_)
-FlattenSeqs(ss) == IF ss = <<>> THEN <<>> ELSE Head(ss) \o FlattenSeqs(Tail(ss))
+FlattenSeqs(ss) == IF Len(ss) = 0 THEN <<>>
+                   ELSE IF Len(ss) = 1 THEN ss[1]
+                   ELSE LET h == Len(ss) \div 2 IN FlattenSeqs(SubSeq(ss, 1, h)) \o FlattenSeqs(SubSeq(ss, h + 1, Len(ss)))
 
 \* all sequences over S of length <= n
 SeqsUpTo(S, n) == UNION { [1..k -> S] : k \in 0..n }
